@@ -111,6 +111,7 @@ fn gen_history(p: &mut Prng, arch: Arch, n_ops: usize) -> Hist {
         }
     }
     let mut last_unwind: Option<Op> = None;
+    let mixed_kinds = p.chance(1, 5);
     for _ in 0..n_ops {
         let u = p.pick(&unws).clone();
         let c = p.pick(&caches).clone();
@@ -128,7 +129,9 @@ fn gen_history(p: &mut Prng, arch: Arch, n_ops: usize) -> Hist {
                 if p.chance(1, 8) {
                     la = la.wrapping_add(p.below(5)).wrapping_sub(2);
                 }
-                let is_ra = *kind.entry(la).or_insert_with(|| p.chance(1, 2));
+                // DWARF / data-less modules decide the rule without looking at the frame kind, so
+                // some histories use one lookup address both ways (pc = X after return address X+1)
+                let is_ra = if mixed_kinds { p.chance(1, 2) } else { *kind.entry(la).or_insert_with(|| p.chance(1, 2)) };
                 let is_ra = is_ra && la != u64::MAX;
                 let addr = if is_ra { la + 1 } else { la };
                 let ip = if p.chance(4, 5) { addr } else { crate::rules::gen_u64(p) };
@@ -312,6 +315,58 @@ fn add_oracle(rep: &mut Report, props: &[&str], key: &str, what: String, case: S
     });
 }
 
+/// For a first frame at `pc`: if `pc` lies in a live module with at least one FDE, usable
+/// lookup structures and no FDE covering it, the outcome of treating it as a frameless leaf.
+fn uncovered_leaf_expectation<H: ArchH>(w: &World<H>, u: &str, pc: u64, regs: &RegsAny, mem: &crate::mem::MemDesc) -> Option<String> {
+    let live = w.live.get(u)?;
+    let mut found = None;
+    for id in live {
+        let m = &w.mods[id].0;
+        if m.start <= pc && pc < m.end {
+            found = Some(m);
+        }
+    }
+    let m = found?;
+    let DataSpec::Dwarf(pres, fdes) = &m.data else { return None };
+    if fdes.is_empty() || pc < m.base_avma || pc - m.base_avma > u32::MAX as u64 {
+        return None;
+    }
+    let svma = m.base_svma.checked_add(pc - m.base_avma)?;
+    if fdes.iter().any(|f| f.start <= svma && svma - f.start < f.len) {
+        return None;
+    }
+    // the index (eh_frame alone / debug_frame) must be buildable
+    if *pres != Pres::Hdr && fdes.iter().any(|f| f.start < m.base_svma || f.start - m.base_svma > u32::MAX as u64) {
+        return None;
+    }
+    Some(match regs {
+        RegsAny::X(r) => {
+            let sp = r.sp();
+            let Some(new_sp) = sp.checked_add(8) else { return Some(format!("err:ovf {}", regs.show())) };
+            match mem.read(sp) {
+                Err(()) => format!("err:stack:{} {}", hex(sp), regs.show()),
+                Ok(0) => format!("done {}", regs.show()),
+                Ok(ra) => {
+                    let mut after = r.clone();
+                    after.ip = ra;
+                    after.r[7] = new_sp;
+                    format!("frame:{} {}", hex(ra), RegsAny::X(after).show())
+                }
+            }
+        }
+        RegsAny::A(r) => {
+            let ra = r.lr & r.mask;
+            if ra == 0 {
+                format!("done {}", regs.show())
+            } else {
+                let mut after = r.clone();
+                after.lr = ra;
+                format!("frame:{} {}", hex(ra), RegsAny::A(after).show())
+            }
+        }
+    })
+}
+
 fn context_of(lines: &[String], upto: usize) -> String {
     // the whole history up to and including the failing op is the replay
     lines[..=upto].join("\n")
@@ -366,6 +421,17 @@ pub fn run_history<H: ArchH>(rep: &mut Report, h: &Hist, hist_id: u64, all_gens:
                     add_oracle(rep, &["C06"], "cache-changes-outcome",
                         format!("outcome with the shared cache differs from a fresh cache: fresh={twin}"),
                         context_of(&lines, here), &got);
+                }
+                // C04: a first frame at an address of a DWARF module that no FDE covers is a
+                // frameless leaf (decided from the generator's own description of the module)
+                if !*is_ra {
+                    if let Some(expect) = uncovered_leaf_expectation::<H>(&w, u, *addr, regs, mem) {
+                        if expect != got {
+                            add_oracle(rep, &["C04"], "uncovered-first-frame-not-a-leaf",
+                                format!("the pc lies in a module with DWARF CFI but in no FDE: a first frame there is a frameless leaf, expected {expect}"),
+                                context_of(&lines, here), &got);
+                        }
+                    }
                 }
                 // C20: exactly one counter, hits touch no section data
                 if let (Some(b), Some(a)) = (obs.stats_before, obs.stats_after) {
@@ -997,7 +1063,8 @@ fn placement_twins<H: ArchH>(rep: &mut Report, p: &mut Prng, id: u64) {
         };
         let na = norm(strip(&ra), a);
         let nb = norm(strip(&rb), b);
-        if na != nb {
+        // (a value that merely coincides with the input address in one placement is not the input)
+        if na != nb && strip(&ra) != strip(&rb) {
             add_oracle(rep, &["C08"], "multi-module-placement-changes-outcome",
                 format!("the same modules placed differently (each moved as a whole, no overlap) give another outcome for the corresponding address; placement B:\n{}\n=> {}", lb.join("\n"), strip(&rb)),
                 la.join("\n"), &strip(&ra));
